@@ -351,7 +351,7 @@ def split_setup(eng):
     eng.ghost.clear()
     eng.ghost.update({'files': {}, 'closed': []})
     eng.spec_env['GHOST'] = eng.ghost
-    values = ['cellA', 'cellB', 'cellA', 'cellC', 'cellB', 'cellD', 'cellA']
+    values = ['cell A', 'cell B', 'cell A', 'cell C', 'cell B', 'cell D', 'cell A']      # raw tag values; file names get '_' for ' '
     recs = []
     for i, v in enumerate(values):
         o = Obj('SplitRead', {'i': i, 'value': v})
@@ -380,8 +380,8 @@ def split_setup(eng):
                                            'close': lambda e, o: e.ghost['closed'].append(o.attrs['path'])}, 'props': {}, 'setters': {}}
     stubs.STUBS['Bytes'] = {'methods': {'decode': lambda e, o, *a: o.attrs['text']}, 'props': {}, 'setters': {}}
     externals.EXTRA['pysam.AlignmentFile'] = opener
-    externals.EXTRA['singlecellmultiomics.utils.path.get_valid_filename'] = lambda e, a, k, n: a[0]
-    eng.loader.call_hooks['singlecellmultiomics.utils.path.get_valid_filename'] = lambda e, f, a, k, n: a[0]
+    externals.EXTRA['singlecellmultiomics.utils.path.get_valid_filename'] = lambda e, a, k, n: a[0].replace(' ', '_')
+    eng.loader.call_hooks['singlecellmultiomics.utils.path.get_valid_filename'] = lambda e, f, a, k, n: a[0].replace(' ', '_')
     pool = Obj('Pool', {})
     pool.vc_immutable = True
     stubs.STUBS['Pool'] = {'methods': {'__enter__': lambda e, o: o, '__exit__': lambda e, o, *a: None,
@@ -393,20 +393,20 @@ split_pass = Contract(
     PROP, FSB + '::split_bam_by_tag', name='split_bam_by_tag[one pass, 4 cells, at most 2 handles]',
     params={'input_bam_path': ('const', 'in.bam'), 'output_prefix': ('const', 'out_'), 'tag': ('const', 'SM'), 'head': 'none',
             'max_handles': ('const', 2), 'skip': ('const', set())},
-    cases=[{}, {'skip': ('const', {'cellA'})}],
+    cases=[{}, {'skip': ('const', {'cell_A'})}],
     setup=split_setup,
     ensures={
         'files_hold_the_records_of_their_cell_in_order':
-            'all(GHOST["files"].get("out_" + v + ".bam") == [r.i for r in RECS if r.value == v] for v in result[0])',
+            'all(GHOST["files"].get("out_" + v + ".bam") == [r.i for r in RECS if r.value.replace(" ", "_") == v] for v in result[0])',
         'done_are_exactly_the_cells_with_a_file': 'sorted(["out_" + v + ".bam" for v in result[0]]) == sorted(list(GHOST["files"].keys()))',
         'postponed_cells_are_reported_waiting_and_not_done':
-            'all(((r.value in result[0]) or (r.value in result[1]) or (r.value in skip)) for r in RECS) and '
+            'all(((r.value.replace(" ", "_") in result[0]) or (r.value.replace(" ", "_") in result[1]) or (r.value.replace(" ", "_") in skip)) for r in RECS) and '
             'all(not (v in result[0]) for v in result[1]) and all(not (v in skip) for v in result[0])',
         'the_limit_on_open_handles_is_kept': 'len(GHOST["files"]) <= 2',
         'every_opened_file_is_closed': 'sorted(GHOST["closed"]) == sorted(list(GHOST["files"].keys()))',
     },
     raises={},
     bounded='7 records of 4 cells, at most 2 handles; nothing skipped / one cell skipped (done in an earlier pass)',
-    assumptions=['pysam.AlignmentFile reader/writer and the indexing pool through stubs (A4); get_valid_filename identity on these names'],
+    assumptions=['pysam.AlignmentFile reader/writer and the indexing pool through stubs (A4); get_valid_filename turns the blank of these names into an underscore'],
 )
 UNITS.append(split_pass)
